@@ -1253,6 +1253,9 @@ pub fn replay(scenario: &str, path: &[usize]) -> Option<RunResult> {
     if scenario == super::c03x::PairedRelease.name() {
         return Some(super::c03x::PairedRelease.run(path[0], true));
     }
+    if scenario == (super::c10::Cto { id: "C03" }).name() {
+        return Some(super::c10::Cto { id: "C03" }.run(path[0], true));
+    }
     if scenario == (super::c03x::EventVariations { id: "C03" }).name() {
         return Some(super::c03x::EventVariations { id: "C03" }.run(path[0], true));
     }
@@ -1279,6 +1282,9 @@ pub fn check(tier: &str) -> i32 {
     c.cases(&super::c03x::Capacities { id: "C03" });
     c.cases(&super::c03x::EventVariations { id: "C03" });
     c.cases(&super::c03x::PairedRelease);
+    // events are reported as recorded, including the quality of their time: the
+    // common-time-of-occurrence product of C10 (all orders of <= 3 events, mixed synchronisation)
+    c.cases(&super::c10::Cto { id: "C03" });
     for s in super::c03x::series(tier) {
         c.explore(&s);
     }
